@@ -95,7 +95,7 @@ fn gen_ring(r: &mut Rng, c: &Cfg, dims: usize) -> Vec<V> {
     v
 }
 
-fn check_polygon(ty: i32, input: &[(i32, Vec<V>)], out: &D, exact_pool: bool, case: &str, rep: &mut Report, rebuilt: Option<&D>) {
+fn check_polygon(ty: i32, input: &[(i32, Vec<V>)], out: &D, exact_pool: bool, scale: i32, case: &str, rep: &mut Report, rebuilt: Option<&D>) {
     let dims = out.dims();
     let tname = type_name(ty);
     let detail = |what: &str, i: usize| {
@@ -136,8 +136,19 @@ fn check_polygon(ty: i32, input: &[(i32, Vec<V>)], out: &D, exact_pool: bool, ca
             (Some(f), Some(l)) if veq(f, l, dims) => {}
             _ => rep.violation(&format!("closed/{}", tname), case, detail("first != last", i)),
         }
-        if exact_pool && in_exact_pool(got) {
-            let s = exact_area2_dyadic(got).expect("harness: exact pool ring not dyadic");
+        // rings of the exact pool may have been scaled by 2^scale as a whole (exact in f64, no
+        // under/overflow for |scale| <= 480): judge the unscaled ring, the sign is the same
+        let unscaled: Vec<V> = if scale == 0 {
+            got.clone()
+        } else {
+            let f = 2f64.powi(-scale);
+            got.iter().map(|v| [(f64::from_bits(v[0]) * f).to_bits(), (f64::from_bits(v[1]) * f).to_bits(), v[2], v[3]]).collect()
+        };
+        if exact_pool && in_exact_pool(&unscaled) {
+            let s = exact_area2_dyadic(&unscaled).expect("harness: exact pool ring not dyadic");
+            if scale != 0 {
+                rep.count("rings_judged_at_a_nonzero_binary_scale", 1);
+            }
             if s != 0 {
                 rep.count("rings_nonzero_exact_area", 1);
             } else {
@@ -223,7 +234,7 @@ fn macro_instances(rep: &mut Report, ctx: &Ctx) {
         (0, vec![[0f64.to_bits(), 0f64.to_bits(), 0, 0], [1f64.to_bits(), 0f64.to_bits(), 0, 0], [1f64.to_bits(), 1f64.to_bits(), 0, 0], [0f64.to_bits(), 1f64.to_bits(), 0, 0]]),
         (1, vec![[0.25f64.to_bits(), 0.25f64.to_bits(), 0, 0], [0.25f64.to_bits(), 0.75f64.to_bits(), 0, 0], [0.75f64.to_bits(), 0.75f64.to_bits(), 0, 0], [0.75f64.to_bits(), 0.25f64.to_bits(), 0, 0], [0.25f64.to_bits(), 0.25f64.to_bits(), 0, 0]]),
     ];
-    check_polygon(5, &input, &a.d(), true, case, rep, None);
+    check_polygon(5, &input, &a.d(), true, 0, case, rep, None);
 
     let am = shapefile::polygon! {
         Inner((0.0, 0.0, 1.0), (0.0, 2.0, 2.0), (2.0, 2.0, 3.0), (2.0, 0.0, 4.0)),
@@ -245,7 +256,7 @@ fn macro_instances(rep: &mut Report, ctx: &Ctx) {
         [2f64.to_bits(), 2f64.to_bits(), 7f64.to_bits(), 3f64.to_bits()],
         [0f64.to_bits(), 2f64.to_bits(), 8f64.to_bits(), 4f64.to_bits()],
     ])];
-    check_polygon(15, &inz, &az.d(), true, case, rep, None);
+    check_polygon(15, &inz, &az.d(), true, 0, case, rep, None);
 
     let mpa = shapefile::multipatch!(
         TriangleStrip((0.0, 0.0, 0.0, 1.0), (1.0, 0.0, 0.0, 2.0), (0.0, 1.0, 0.0, 3.0)),
@@ -297,6 +308,15 @@ pub fn run(ctx: &Ctx) -> Report {
                 (k, gen_ring(&mut r, &c, dims))
             })
             .collect();
+        // the exact-pool regimes: every third case scaled as a whole by 2^s (tiny and huge rings
+        // whose f64 shoelace arithmetic is still exact)
+        let scale: i32 = if regime <= 1 && i % 3 == 2 { r.below(961) as i32 - 480 } else { 0 };
+        let input: Vec<(i32, Vec<V>)> = if scale == 0 {
+            input
+        } else {
+            let f = 2f64.powi(scale);
+            input.into_iter().map(|(k, v)| (k, v.into_iter().map(|p| [(f64::from_bits(p[0]) * f).to_bits(), (f64::from_bits(p[1]) * f).to_bits(), p[2], p[3]]).collect())).collect()
+        };
         let use_new = r.chance(0.5);
         rep.eval();
         rep.class(&format!("{}:{}", type_name(ty), ["exact-pool", "exact-pool", "grid", "special-doubles"][regime]));
@@ -319,7 +339,7 @@ pub fn run(ctx: &Ctx) -> Report {
             // rebuild from its own rings
             let own: Vec<(i32, Vec<V>)> = out.kinds.iter().cloned().zip(out.parts.iter().cloned()).collect();
             let rebuilt = build(ty, &own, false).d();
-            check_polygon(ty, &input, &out, regime != 3, &case, rep, Some(&rebuilt));
+            check_polygon(ty, &input, &out, regime != 3, scale, &case, rep, Some(&rebuilt));
         }
         rep.sample(|| J::obj(vec![("case", J::s(case.clone())), ("constructor", J::s(if use_new && input.len() == 1 { "new" } else { "with_rings/with_parts" })), ("rings_in", J::UInt(input.len() as u64)), ("output", out.to_json())]));
     });
